@@ -425,7 +425,7 @@ def find_fn(file, qname):
     return c[nth - 1]
 
 
-def splice_fn(fs, stats):
+def splice_fn(fs, stats, canary=False):
     """returns (text, segments) where segments = list of (text, origin) with origin in
     ('code', file, line) | ('spec', fnname, what)"""
     it = find_fn(fs.file, fs.name)
@@ -433,7 +433,8 @@ def splice_fn(fs, stats):
     text = rule_R0(text, stats)
     rules = [r for r in fs.opts.get("rules", "").split(",") if r]
     for r in rules:
-        rid, _, arg = r.partition("@")
+        optional = r.endswith("?")
+        rid, _, arg = r.rstrip("?").partition("@")
         only = [int(x) for x in arg.split("+")] if arg else None
         if rid == "R10":
             continue
@@ -442,7 +443,7 @@ def splice_fn(fs, stats):
             text = RULES[rid](text, stats, only)
         else:
             text = RULES[rid](text, stats)
-        if text == before:
+        if text == before and not optional:
             raise ExtractError("rule %s no longer applies to %s::%s" % (rid, fs.file, fs.name))
     vis = fs.opts.get("vis", "pub")
     # --- visibility
@@ -515,6 +516,8 @@ def splice_fn(fs, stats):
         inserts.append((code[body_open].start, "\n" + fs.spec.rstrip() + "\n", "spec"))
     if fs.body_start.strip():
         inserts.append((code[body_open].end, "\n" + fs.body_start.rstrip() + "\n", "body_start"))
+    if canary and fs.spec.strip():
+        inserts.append((code[body_open].end, "\nproof { assert(false); } // CANARY fn\n", "canary"))
     # --- loops
     loops = _loops(code[body_open:body_close + 1])
     for n, ltext in fs.loops.items():
@@ -522,6 +525,8 @@ def splice_fn(fs, stats):
             raise ExtractError("%s::%s has %d loops, contract refers to loop %d" % (fs.file, fs.name, len(loops), n))
         kw, bo, bc = loops[n - 1]
         inserts.append((code[body_open + bo].start, "\n" + ltext.rstrip() + "\n", "loop %d" % n))
+        if canary:
+            inserts.append((code[body_open + bo].end, "\nproof { assert(false); } // CANARY loop %d\n" % n, "canary"))
     for n in range(1, len(loops) + 1):
         pass
     # --- statement anchors
@@ -557,7 +562,7 @@ def splice_fn(fs, stats):
     return it, header, segs
 
 
-def build(unit_path, prelude_paths):
+def build(unit_path, prelude_paths, canary=False):
     """returns (generated_text, linemap, info) ; linemap[i] (0-based line) = dict(origin=..., fn=..., what=...)"""
     unit = parse_unit(unit_path)
     stats = {k: 0 for k in ["R0", "R1", "R2", "R3", "R4", "R5", "R6", "R7", "R8", "R9", "R10"]}
@@ -603,7 +608,7 @@ def build(unit_path, prelude_paths):
             emit(t + "\n", {"origin": "code", "file": part["file"], "line": c[0].line, "fn": part["name"]})
         elif kind == "fn":
             fs = part
-            it, header, segs = splice_fn(fs, stats)
+            it, header, segs = splice_fn(fs, stats, canary)
             qn = fs.name
             meta_base = {"file": fs.file, "fn": qn, "tags": fs.tags}
             wrap_open = wrap_close = ""
